@@ -98,6 +98,22 @@ class Engine(BaseEngine):
                 text = J.render_event(rng, e, plain=True).encode()
                 cls = "intbound-ok" if kind <= 65535 and created < (1 << 64) else "intbound-bad"
                 out.append(self.case(cls, text, ev_size(e) + 8, 0))
+        # integers beyond the field's range, spread over the whole of every wrap-around window (a wrapping accumulator
+        # with a one-sided overflow test lets the upper part of each window through): 20..22-digit created_at, 5..11-digit kinds
+        for j in range(60 if tier == "quick" else 2000):
+            e = rand_event(rng)
+            if j % 3 == 0:
+                e["created"] = rng.choice([rng.randrange(1 << 64, 10 ** 20), rng.randrange(10 ** 20, 10 ** 21), (1 << 64) * rng.randrange(1, 6) + rng.getrandbits(64),
+                                           3 * 10 ** 19, 36893488147419103231, 2 * (1 << 64) - 1, 10 ** 22 + rng.getrandbits(60)])
+            elif j % 3 == 1:
+                e["kind"] = rng.choice([rng.randrange(65536, 1 << 32), rng.randrange(1 << 32, 1 << 34), (1 << 32) * rng.randrange(1, 9) + rng.randrange(65536),
+                                        (1 << 32) + 1, (1 << 32) + 65535, (1 << 16) * rng.randrange(1, 70000) + rng.randrange(65536)])
+            else:
+                e["created"] = rng.choice([(1 << 64) - 1 - rng.randrange(10), rng.randrange(1 << 63, 1 << 64)])
+                e["kind"] = rng.choice([65535, 65534, rng.randrange(60000, 65536)])
+            text = J.render_event(rng, e, plain=True).encode()
+            cls = "intrange-ok" if e["kind"] <= 65535 and e["created"] < (1 << 64) else "intrange-bad"
+            out.append(self.case(cls, text, ev_size(e) + 8, 0))
         # tag section sizes around the u16 limit
         for extra in (-40, -1, 0, 1, 40):
             e = rand_event(rng)
@@ -142,10 +158,10 @@ class Engine(BaseEngine):
             rcls = i["r"].split(":")[0]
             if i.get("guard") == "false":
                 return Verdict(oracle_ok=False, cls="write-outside-buffer", detail="[%s] guard bytes modified" % prof, outcome="guard")
-            if gcls in ("valid", "orders", "intbound-ok", "tagsize-ok"):
+            if gcls in ("valid", "orders", "intbound-ok", "intrange-ok", "tagsize-ok"):
                 if rcls != "ok":
                     return Verdict(oracle_ok=False, cls="valid-event-rejected", detail="[%s] a valid event text is rejected: %s" % (prof, i["r"]), outcome=rcls)
-            if gcls in ("intbound-bad", "tagsize-bad") and rcls == "ok":
+            if gcls in ("intbound-bad", "intrange-bad", "tagsize-bad") and rcls == "ok":
                 return Verdict(oracle_ok=False, cls="out-of-range-accepted", detail="[%s] an integer/tag section that does not fit was accepted" % prof, outcome=rcls)
             if rcls == "ok":
                 consumed = int(i["consumed"])
@@ -166,7 +182,7 @@ class Engine(BaseEngine):
                         # the next byte, if any, is the generator's trailing part
                         if text[consumed - 1:consumed] != b"}":
                             return Verdict(oracle_ok=False, cls="consumed-wrong", detail="[%s] consumed does not end at the closing brace" % prof, outcome=rcls)
-                elif gcls in ("valid", "orders", "intbound-ok", "tagsize-ok"):
+                elif gcls in ("valid", "orders", "intbound-ok", "intrange-ok", "tagsize-ok"):
                     return Verdict(corr_ok=False, cls="generator", detail="generated text does not parse with python json at the consumed length", outcome=rcls)
             # correspondence
             mr = m.get("r", "?").split(":")[0]
